@@ -402,6 +402,39 @@ func typedRewrites(fset *token.FileSet, f *ast.File, info *types.Info, ed *edito
 		p := fset.Position(n.Pos())
 		return fmt.Sprintf("%s:%d", relFile(root, fn), p.Line)
 	}
+	skipRecv := map[*ast.UnaryExpr]bool{}
+	// recvElem: element type of the channel being received from, as written in this file.
+	recvElem := func(u *ast.UnaryExpr) string {
+		tv, ok := info.Types[u.X]
+		if !ok || tv.Type == nil {
+			return ""
+		}
+		ch, ok := tv.Type.Underlying().(*types.Chan)
+		if !ok {
+			return ""
+		}
+		return types.TypeString(ch.Elem(), qual)
+	}
+	// syncKey: pointer to the sync object a method is called on.
+	syncKey := func(sel *ast.SelectorExpr) string {
+		tv, ok := info.Types[sel.X]
+		if ok && tv.Type != nil {
+			if _, isPtr := tv.Type.Underlying().(*types.Pointer); isPtr {
+				return text(sel.X)
+			}
+		}
+		return "&" + text(sel.X)
+	}
+	recvTypeName := func(sel *ast.SelectorExpr) string {
+		if s := info.Selections[sel]; s != nil {
+			if fn, ok := s.Obj().(*types.Func); ok {
+				if sig, ok := fn.Type().(*types.Signature); ok && sig.Recv() != nil {
+					return sig.Recv().Type().String()
+				}
+			}
+		}
+		return ""
+	}
 	// hasTry: the receiver's static type offers TryLock (sync.Mutex, sync.RWMutex, structs
 	// embedding them) and the receiver expression is free of calls (it is evaluated twice).
 	hasTry := func(sel *ast.SelectorExpr) bool {
@@ -446,6 +479,9 @@ func typedRewrites(fset *token.FileSet, f *ast.File, info *types.Info, ed *edito
 				tv, ok := info.Types[x.X]
 				if !ok || tv.Type == nil {
 					return true
+				}
+				if _, isChan := tv.Type.Underlying().(*types.Chan); isChan {
+					report.ChanOps = append(report.ChanOps, where(x)+" range over channel")
 				}
 				mt, ok := tv.Type.Underlying().(*types.Map)
 				if !ok {
@@ -551,7 +587,27 @@ func typedRewrites(fset *token.FileSet, f *ast.File, info *types.Info, ed *edito
 						ed.replace(off(sel.End()), off(x.Lparen)+1, ", ")
 					}
 				case "Wait":
-					report.ChanOps = append(report.ChanOps, where(x)+" sync.Wait")
+					rt := recvTypeName(sel)
+					switch {
+					case strings.Contains(rt, "WaitGroup"):
+						report.SyncSites = append(report.SyncSites, where(x)+" WaitGroup.Wait")
+						ed.replace(off(x.Pos()), off(x.End()), rtImportName+".WGWait("+syncKey(sel)+")")
+					case strings.Contains(rt, "Cond"):
+						report.SyncSites = append(report.SyncSites, where(x)+" Cond.Wait")
+						ed.replace(off(x.Pos()), off(x.End()), rtImportName+".CondWait("+syncKey(sel)+")")
+					default:
+						report.ChanOps = append(report.ChanOps, where(x)+" sync.Wait")
+					}
+				case "Add":
+					if strings.Contains(recvTypeName(sel), "WaitGroup") && len(x.Args) == 1 {
+						report.SyncSites = append(report.SyncSites, where(x)+" WaitGroup.Add")
+						ed.replace(off(x.Pos()), off(x.Lparen)+1, rtImportName+".WGAdd("+syncKey(sel)+", ")
+					}
+				case "Done":
+					if strings.Contains(recvTypeName(sel), "WaitGroup") {
+						report.SyncSites = append(report.SyncSites, where(x)+" WaitGroup.Done")
+						ed.replace(off(x.Pos()), off(x.End()), rtImportName+".WGAdd("+syncKey(sel)+", -1)")
+					}
 				case "Range":
 					report.ReflectMap = append(report.ReflectMap, where(x)+" sync.Map.Range")
 				}
@@ -563,15 +619,87 @@ func typedRewrites(fset *token.FileSet, f *ast.File, info *types.Info, ed *edito
 					}
 				}
 			case *ast.GoStmt:
-				report.GoStmts = append(report.GoStmts, where(x))
+				call := x.Call
+				builtin := false
+				if id, ok := call.Fun.(*ast.Ident); ok {
+					if _, isB := info.Uses[id].(*types.Builtin); isB {
+						builtin = true
+					}
+				}
+				nilArg := false
+				for _, a := range call.Args {
+					if tv, ok := info.Types[a]; ok && tv.IsNil() {
+						nilArg = true
+					}
+				}
+				if builtin || nilArg {
+					report.GoStmts = append(report.GoStmts, where(x)+" (not simulated)")
+					break
+				}
+				report.SyncSites = append(report.SyncSites, where(x)+" go")
+				names := []string{"simf"}
+				for i := range call.Args {
+					names = append(names, fmt.Sprintf("sima%d", i))
+				}
+				callArgs := strings.Join(names[1:], ", ")
+				if call.Ellipsis.IsValid() {
+					callArgs += "..."
+				}
+				ed.replace(off(x.Go), off(call.Fun.Pos()), rtImportName+".Go(func() func() { "+strings.Join(names, ", ")+" := ")
+				suffix := "; return func() { simf(" + callArgs + ") } }())"
+				if len(call.Args) == 0 {
+					ed.replace(off(call.Lparen), off(call.Rparen)+1, suffix)
+				} else {
+					ed.replace(off(call.Lparen), off(call.Lparen)+1, ", ")
+					endArgs := off(call.Rparen)
+					if call.Ellipsis.IsValid() {
+						endArgs = off(call.Ellipsis)
+					}
+					ed.replace(endArgs, off(call.Rparen)+1, suffix)
+				}
 			case *ast.SendStmt:
 				report.ChanOps = append(report.ChanOps, where(x)+" send")
+			case *ast.ExprStmt:
+				if u, ok := x.X.(*ast.UnaryExpr); ok && u.Op == token.ARROW && !skipRecv[u] {
+					skipRecv[u] = true
+					report.SyncSites = append(report.SyncSites, where(x)+" recv-wait")
+					ed.replace(off(u.OpPos), off(u.OpPos)+2, rtImportName+".RecvWait(")
+					ed.insert(off(u.End()), ")")
+				}
+			case *ast.AssignStmt:
+				if len(x.Lhs) == 2 && len(x.Rhs) == 1 {
+					if u, ok := x.Rhs[0].(*ast.UnaryExpr); ok && u.Op == token.ARROW && !skipRecv[u] {
+						if t := recvElem(u); t != "" {
+							skipRecv[u] = true
+							report.SyncSites = append(report.SyncSites, where(x)+" recv2")
+							ed.replace(off(u.OpPos), off(u.OpPos)+2, "func() ("+t+", bool) { simv, simok := "+rtImportName+".Recv2(")
+							ed.insert(off(u.End()), "); simt, _ := simv.("+t+"); return simt, simok }()")
+						}
+					}
+				}
 			case *ast.UnaryExpr:
-				if x.Op == token.ARROW {
-					report.ChanOps = append(report.ChanOps, where(x)+" recv")
+				if x.Op == token.ARROW && !skipRecv[x] {
+					if t := recvElem(x); t != "" {
+						report.SyncSites = append(report.SyncSites, where(x)+" recv")
+						ed.replace(off(x.OpPos), off(x.OpPos)+2, "func() "+t+" { simv, _ := "+rtImportName+".Recv2(")
+						ed.insert(off(x.End()), "); simt, _ := simv.("+t+"); return simt }()")
+					} else {
+						report.ChanOps = append(report.ChanOps, where(x)+" recv")
+					}
 				}
 			case *ast.SelectStmt:
 				report.ChanOps = append(report.ChanOps, where(x)+" select")
+				// receives that are the communication of a select case stay as they are
+				for _, cl := range x.Body.List {
+					if cc, ok := cl.(*ast.CommClause); ok && cc.Comm != nil {
+						ast.Inspect(cc.Comm, func(m ast.Node) bool {
+							if u, ok := m.(*ast.UnaryExpr); ok && u.Op == token.ARROW {
+								skipRecv[u] = true
+							}
+							return true
+						})
+					}
+				}
 			}
 			return true
 		})
@@ -942,6 +1070,8 @@ import (
 	"fmt"
 	"reflect"
 	"sort"
+	"sync"
+	"sync/atomic"
 )
 
 // Hook is called before every statement of the instrumented packages.
@@ -991,6 +1121,139 @@ func Lock(try func() bool, lock func()) {
 	}
 }
 
+// Active reports whether a simulated run is in progress (set by the harness).
+var Active func() bool
+
+// GoHook starts f as a new simulated client (set by the harness).
+var GoHook func(f func())
+
+var realSpawned int32
+
+func simulating() bool { return Hook != nil && Active != nil && Active() }
+
+// Go replaces the go statement: inside a simulated run the new goroutine becomes a
+// client of the scheduler; outside (reference evaluations) it is a real goroutine.
+func Go(f func()) {
+	if GoHook != nil && simulating() {
+		GoHook(f)
+		return
+	}
+	atomic.AddInt32(&realSpawned, 1)
+	go func() {
+		defer atomic.AddInt32(&realSpawned, -1)
+		f()
+	}()
+}
+
+// RealSpawned is the number of real goroutines started by the library outside a
+// simulated run that have not finished yet.
+func RealSpawned() int32 { return atomic.LoadInt32(&realSpawned) }
+
+// Recv2 is a channel receive that never blocks the thread under simulation: it polls
+// and gives way while nothing is there.
+func Recv2(ch interface{}) (interface{}, bool) {
+	rv := reflect.ValueOf(ch)
+	if !simulating() {
+		v, ok := rv.Recv()
+		return v.Interface(), ok
+	}
+	for {
+		v, ok := rv.TryRecv()
+		if v.IsValid() {
+			return v.Interface(), ok
+		}
+		if b := Blocked; b != nil {
+			b()
+		}
+	}
+}
+
+func RecvWait(ch interface{}) { Recv2(ch) }
+
+type wgEnt struct {
+	p *sync.WaitGroup
+	n int
+}
+
+var wgTab [64]wgEnt
+
+//go:norace
+func wgTrack(wg *sync.WaitGroup, n int) {
+	free := -1
+	for i := range wgTab {
+		if wgTab[i].p == wg {
+			wgTab[i].n += n
+			if wgTab[i].n <= 0 {
+				wgTab[i] = wgEnt{}
+			}
+			return
+		}
+		if wgTab[i].p == nil && free < 0 {
+			free = i
+		}
+	}
+	if free >= 0 && n > 0 {
+		wgTab[free] = wgEnt{wg, n}
+	}
+}
+
+//go:norace
+func wgCount(wg *sync.WaitGroup) int {
+	for i := range wgTab {
+		if wgTab[i].p == wg {
+			return wgTab[i].n
+		}
+	}
+	return 0
+}
+
+//go:norace
+func wgReset() { wgTab = [64]wgEnt{} }
+
+// WGAdd replaces wg.Add(n) / wg.Done(): the counter is mirrored for WGWait.
+func WGAdd(wg *sync.WaitGroup, n int) {
+	if simulating() {
+		wgTrack(wg, n)
+	}
+	wg.Add(n)
+}
+
+// WGWait replaces wg.Wait(): under simulation it gives way until the mirrored counter
+// reaches zero; the real Wait then returns at once (and gives the race detector its
+// happens-before edge).
+func WGWait(wg *sync.WaitGroup) {
+	if simulating() {
+		for wgCount(wg) > 0 {
+			if b := Blocked; b != nil {
+				b()
+			}
+		}
+	}
+	wg.Wait()
+}
+
+// CondWait replaces c.Wait(): unlock, give way, lock again (callers of Cond.Wait must
+// re-check their condition in a loop anyway).
+func CondWait(c *sync.Cond) {
+	if !simulating() {
+		c.Wait()
+		return
+	}
+	c.L.Unlock()
+	if b := Blocked; b != nil {
+		b()
+	}
+	if tl, ok := c.L.(interface{ TryLock() bool }); ok {
+		for !tl.TryLock() {
+			if b := Blocked; b != nil {
+				b()
+			}
+		}
+		return
+	}
+	c.L.Lock()
+}
+
 func CSEnter(lock func())   { csInc(); lock() }
 func CSExit(unlock func())  { unlock(); csDec() }
 func CSTry(try func() bool) bool {
@@ -1010,6 +1273,7 @@ func RegisterReset(f func()) { resets = append(resets, f) }
 
 // ResetAll returns every instrumented package to its freshly initialised state.
 func ResetAll() {
+	wgReset()
 	for _, f := range resets {
 		f()
 	}
